@@ -285,7 +285,11 @@ func (k *Case) runFinalize(csr *x509.CertificateRequest) (out string) {
 		if i < len(k.FPs) {
 			fp = fps[k.FPs[i]%3]
 		}
-		azs[id] = &acme.Authorization{ID: id, AccountID: "acc", Status: acme.StatusValid, Fingerprint: fp}
+		// the stored authorization carries its identifier exactly as api.NewOrder creates it
+		// (wildcard prefix trimmed), so code that looks at the authorization's type sees it
+		azs[id] = &acme.Authorization{ID: id, AccountID: "acc", Status: acme.StatusValid, Fingerprint: fp,
+			Identifier: acme.Identifier{Type: acme.IdentifierType(k.IDs[i].T), Value: strings.TrimPrefix(k.IDs[i].V, "*.")},
+			Wildcard:   strings.HasPrefix(k.IDs[i].V, "*.")}
 	}
 	var stored []*acme.Certificate
 	db := &acme.MockDB{
@@ -525,7 +529,7 @@ func genFin(r *c.Rng) *Case {
 	if !attested && r.Chance(1, 20) {
 		k.FPs[r.Intn(len(k.FPs))] = 1 + r.Intn(2)
 	}
-	if r.Chance(1, 8) {
+	if r.Chance(1, 8) || (attested && len(k.IDs) > 1 && r.Chance(1, 3)) {
 		k.Key = 2
 	}
 	if attested {
@@ -690,6 +694,11 @@ func corner() []*Case {
 		{Kind: "fin", Key: 1, IDs: []ID{p("device-1234")}, FPs: []int{1}, DNS: []string{"evil.example.net"}, Emails: []string{"root@example.com"}},
 		{Kind: "fin", Key: 1, IDs: []ID{p("device-1234"), d("a.example.com")}, FPs: []int{1, 0}, DNS: []string{"a.example.com"}},
 		{Kind: "fin", Key: 1, IDs: []ID{p("A"), p("B")}, FPs: []int{1, 2}},
+		// mixed orders with the dns / ip identifier BEFORE the permanent identifier: the attested key is still enforced
+		{Kind: "fin", Key: 2, IDs: []ID{d("host.example.com"), p("device-1234")}, FPs: []int{0, 1}, DNS: []string{"host.example.com"}},
+		{Kind: "fin", Key: 1, IDs: []ID{d("host.example.com"), p("device-1234")}, FPs: []int{0, 1}, DNS: []string{"host.example.com"}},
+		{Kind: "fin", Key: 2, IDs: []ID{i("10.0.0.1"), d("a.example.com"), p("device-1234")}, FPs: []int{0, 0, 1}},
+		{Kind: "fin", Key: 2, IDs: []ID{p("device-1234"), d("host.example.com")}, FPs: []int{1, 0}, CN: "device-1234"},
 		{Kind: "fin", Key: 1, IDs: []ID{p("")}, FPs: []int{0}},
 		{Kind: "fin", Key: 1, IDs: []ID{p("device-1234")}, FPs: []int{0}},
 		{Kind: "fin", Key: 1, IDs: []ID{{"email", "x@example.com"}}, DNS: []string{"a.example.com"}},
